@@ -58,6 +58,19 @@ def r13_1(run):
     run.ob('R13.1', init, init.node, 'the lone "." terminator is matched before data lines', ok, slot='end-first', message='RECV_PLUS transitions in order: %s' % names)
 
 
+def callback_bodies(u):
+    """result expressions of the small callbacks nested in u: a lambda's body, or the single `return <expr>` of a nested def"""
+    out = []
+    for ch in u.children:
+        if isinstance(ch.node, ast.Lambda):
+            out.append(ch.node.body)
+        elif isinstance(ch.node, ast.FunctionDef):
+            body = [b for b in ch.node.body if not (isinstance(b, ast.Expr) and isinstance(b.value, ast.Constant))]
+            if len(body) == 1 and isinstance(body[0], ast.Return) and body[0].value is not None:
+                out.append(body[0].value)
+    return out
+
+
 def r13_2(run):
     ci = proto(run)
     k = 0
@@ -101,9 +114,9 @@ def r13_2(run):
     ok = shape_prefix(sh) == 'GETINFO ' and len(sh) == 2 and "' '.join(args)" in src(sh[1].node)
     run.ob('R13.2', gr, gr.node, 'GETINFO lists the keys separated by single spaces', ok, slot='getinfo-shape', message='get_info_raw sends %s' % shape_text(sh))
     gs = U(run, 'get_info_single')
-    lam = [ch for ch in gs.children if isinstance(ch.node, ast.Lambda)]
-    ok = any(isinstance(ch.node.body, ast.Subscript) and dotted(ch.node.body.slice) == gs.params[1] for ch in lam)
-    run.ob('R13.2', gs, gs.node, 'get_info_single returns the value stored under the requested key', ok, slot='single-key', message='get_info_single extracts %s' % [src(ch.node.body) for ch in lam])
+    lam = callback_bodies(gs)
+    ok = any(isinstance(b, ast.Subscript) and dotted(b.slice) == gs.params[1] for b in lam)
+    run.ob('R13.2', gs, gs.node, 'get_info_single returns the value stored under the requested key', ok, slot='single-key', message='get_info_single extracts %s' % [src(b) for b in lam])
 
 
 def pk_roles(pk):
@@ -152,7 +165,18 @@ def r13_3(run, ok_rule=True):
     run.ob('R13.3', pk, pk.node, 'key and value come from one split of the line', ok, slot='kv-split', message='(key, value) assigned from %s' % [src(a.value) for a in kv])
     # the stored value is the (unquoted) remainder, distinct from the sentinel; '' stays ''
     vals = [s for s in stores if not (dotted(s.value) == 'DEFAULT_VALUE')]
-    okv = all(any(isinstance(x, ast.Name) and x.id == V for x in ast.walk(s.value)) for s in vals)
+
+    def derives(e, depth=0):
+        """e mentions the value variable, or a local every definition of which does (a temporary holding unquote(value))"""
+        for x in ast.walk(e):
+            if isinstance(x, ast.Name):
+                if x.id == V:
+                    return True
+                ds = [d for d in defs.get(x.id, []) if len(d) > 1 and isinstance(d[1], ast.AST)]
+                if depth < 2 and ds and x.id not in (R, K, L) and all(derives(d[1], depth + 1) for d in ds):
+                    return True
+        return False
+    okv = all(derives(s.value) for s in vals)
     run.ob('R13.3', pk, pk.node, 'stored values derive from the text after "="', okv, slot='value-source', message='stores: %s' % [src(s.value) for s in vals])
     for d in defs.get(V, []):
         bad = len(d) > 1 and isinstance(d[1], ast.AST) and any(dotted(x) == 'DEFAULT_VALUE' for x in ast.walk(d[1])) and d[0] == 'expr'
@@ -203,10 +227,10 @@ def r13_3(run, ok_rule=True):
                    message='parse_keywords assigns %s without testing whether the key already has a value: an option reported several times loses its earlier values' % src(s_)[:50])
     # repeated keys accumulate in arrival order: [old, new] then append
     lists = [s for s in stores if isinstance(s.value, ast.List) and len(s.value.elts) == 2]
-    ok = bool(lists) and all(isinstance(s.value.elts[0], ast.Subscript) and dotted(s.value.elts[0].value) == R and any(isinstance(x, ast.Name) and x.id == V for x in ast.walk(s.value.elts[1])) for s in lists)
+    ok = bool(lists) and all(isinstance(s.value.elts[0], ast.Subscript) and dotted(s.value.elts[0].value) == R and derives(s.value.elts[1]) for s in lists)
     run.ob('R13.3', pk, pk.node, 'a repeated key becomes [earlier, later]', ok, slot='repeat-pair', message='repeat handling: %s' % [src(s.value) for s in lists])
     apps = [c for c in calls_in(pk) if callee_attr(c) == 'append' and isinstance(receiver(c), ast.Subscript) and dotted(receiver(c).value) == R]
-    ok = bool(apps) and all(any(isinstance(x, ast.Name) and x.id == V for x in ast.walk(c.args[0])) for c in apps)
+    ok = bool(apps) and all(derives(c.args[0]) for c in apps)
     run.ob('R13.3', pk, pk.node, 'further repeats are appended (arrival order)', ok, slot='repeat-append', message='appends: %s' % [src(c) for c in apps])
     # ... at every flush site: the test "already a list" selects append on its true edge and the [earlier, later] pair on its false edge
     il = [t for t in g.live if t.kind == 'test' and isinstance(t.ast, ast.Call) and dotted(t.ast.func) == 'isinstance' and len(t.ast.args) == 2 and
@@ -333,8 +357,7 @@ def r13_5(run):
         sh = shape(cmd[0].args[0]) if cmd else []
         run.ob('R13.5', u, u.node, '%s sends GETCONF <keys>' % name, shape_prefix(sh) == 'GETCONF ', slot='cmd:%s' % name, message='%s sends %s' % (name, shape_text(sh)))
     gs = U(run, 'get_conf_single')
-    lam = [ch for ch in gs.children if isinstance(ch.node, ast.Lambda)]
-    bodies = [src(ch.node.body) for ch in lam]
+    bodies = [src(b) for b in callback_bodies(gs)]
     ok = any(b in ('list(kw.values())[0]', 'next(iter(kw.values()))') or b.endswith('.values())[0]') for b in bodies)
     bad = any((' or ' in b) or ('.get(' in b and ',' in b) for b in bodies)
     run.ob('R13.5', gs, gs.node, 'get_conf_single hands back the parsed value itself (unset stays the sentinel, "" stays empty)', ok and not bad, slot='single-value',
